@@ -45,7 +45,8 @@ PLAIN = {b[0] for b in BODIES[:27]}
 BINDINGS = ["none", "none", "none", "param", "assigned-before", "assigned-after", "rebound-later", "for-target-before",
             "with-target-before", "module-level", "imported", "annassign-before", "augassign-before",
             "module-level-below", "imported-below", "helper-def-below", "class-below",
-            "unpack-before", "nested-unpack-before", "for-nested-before", "with-nested-before", "list-unpack-before"]
+            "unpack-before", "nested-unpack-before", "for-nested-before", "with-nested-before", "list-unpack-before",
+            "module-level+rebound-below", "imported+rebound-below", "module-level+with-below"]
 SHAPES = ["noparams", "one", "many", "default", "annotated", "return-ann", "multiline", "multiline-trailing", "method",
           "async", "decorated", "one-line-body", "fixture", "spaces"]
 
@@ -53,9 +54,9 @@ SHAPES = ["noparams", "one", "many", "default", "annotated", "return-ann", "mult
 def build(rng, shape, body, binding, name):
     """-> (text, function name, expected parameter list before the fix)"""
     L = ["import pytest"]
-    if binding == "imported":
+    if binding in ("imported", "imported+rebound-below"):
         L.append(f"from os import path as {name}")
-    if binding == "module-level":
+    if binding in ("module-level", "module-level+rebound-below", "module-level+with-below"):
         L.append(f"{name} = 42")
     L.append("")
     ind = ""
@@ -96,6 +97,9 @@ def build(rng, shape, body, binding, name):
     pre, post = [], []
     if binding == "assigned-before": pre = [f"{name} = 1"]
     if binding == "assigned-after": post = [f"{name} = 1"]
+    # a module-level / imported name that the body binds again further down is still that name where it is used
+    if binding in ("module-level+rebound-below", "imported+rebound-below"): post = [f"{name} = 1"]
+    if binding == "module-level+with-below": post = [f"with open('x') as {name}:", "    pass"]
     if binding == "rebound-later": pre = [f"{name} = 1"]; post = [f"{name} = 2"]
     if binding == "for-target-before": pre = [f"for {name} in range(2):", "    pass"]
     if binding == "with-target-before": pre = [f"with open('x') as {name}:", "    pass"]
